@@ -91,10 +91,27 @@ func c38Store(ss *state.InmemoryStorageState, parent common.Hash, v1 bool, ops f
 
 // writer returns the storage state that writes block states (its own cache,
 // holding the empty trie like a node at genesis).
-func (e *c38Env) writer() (*state.InmemoryStorageState, error) {
+func (e *c38Env) writer() (*state.InmemoryStorageState, *state.Tries, error) {
 	tries := state.NewTries()
 	tries.SetEmptyTrie()
-	return state.NewStorageState(e.db, nil, tries)
+	ss, err := state.NewStorageState(e.db, nil, tries)
+	return ss, tries, err
+}
+
+// liveModule builds a StateModule over the tries cache of the node that wrote
+// the blocks (no restart): older states are served from the in-memory tries
+// that later blocks were derived from. root is the best block's state root.
+func (e *c38Env) liveModule(tries *state.Tries, root common.Hash) (*StateModule, error) {
+	header := types.NewHeader(common.Hash{}, root, trie.EmptyHash, 0, types.NewDigest())
+	bs, err := state.NewBlockStateFromGenesis(e.db, tries, header, telemetry.NewNoopMailer())
+	if err != nil {
+		return nil, fmt.Errorf("block state: %w", err)
+	}
+	ss, err := state.NewStorageState(e.db, bs, tries)
+	if err != nil {
+		return nil, fmt.Errorf("storage state: %w", err)
+	}
+	return NewStateModule(nil, ss, nil, nil), nil
 }
 
 // restarted builds a StateModule over a fresh storage state with an empty
@@ -142,7 +159,15 @@ func TestC38PersistedListing(t *testing.T) {
 	env := newC38Env(t)
 	rapid.Check(t, func(t *rapid.T) {
 		v1 := rapid.Bool().Draw(t, "v1")
-		labels := map[string]bool{"persisted-uncached": true}
+		// live: the states are listed through the cache of the node that wrote them
+		// (no restart); an older state is then the in-memory trie block 2 was derived from
+		live := rapid.IntRange(0, 3).Draw(t, "live") == 0
+		labels := map[string]bool{}
+		if live {
+			labels["live-cache-of-the-writing-node"] = true
+		} else {
+			labels["persisted-uncached"] = true
+		}
 		if v1 {
 			labels["v1"] = true
 		}
@@ -188,7 +213,7 @@ func TestC38PersistedListing(t *testing.T) {
 			}
 			labels["shape-general"] = true
 		}
-		ss, err := env.writer()
+		ss, liveTries, err := env.writer()
 		if err != nil {
 			t.Fatalf("harness: %v", err)
 		}
@@ -210,8 +235,12 @@ func TestC38PersistedListing(t *testing.T) {
 		descr += " ]"
 		blocks := []c38Block{{model.Clone(), root}}
 		// ---- optional block 2 derived from block 1 (incremental write: unchanged nodes are not rewritten)
-		if rapid.IntRange(0, 2).Draw(t, "block2") == 0 {
-			nOps := rapid.IntRange(1, 4).Draw(t, "nops")
+		if rapid.IntRange(0, 2).Draw(t, "block2") == 0 || (live && rapid.IntRange(0, 3).Draw(t, "block2live") > 0) {
+			maxOps := 4
+			if live {
+				maxOps = 8
+			}
+			nOps := rapid.IntRange(1, maxOps).Draw(t, "nops")
 			descr += " B2["
 			root2, err := c38Store(ss, root, v1, func(put func(k, v []byte) error, del func(k []byte) error) error {
 				for i := 0; i < nOps; i++ {
@@ -251,7 +280,7 @@ func TestC38PersistedListing(t *testing.T) {
 		}
 		// ---- which stored state is listed (the newest, or the older one)
 		li := len(blocks) - 1
-		if len(blocks) == 2 && rapid.IntRange(0, 3).Draw(t, "older") == 0 {
+		if len(blocks) == 2 && (rapid.IntRange(0, 3).Draw(t, "older") == 0 || (live && rapid.Bool().Draw(t, "olderlive"))) {
 			li = 0
 			labels["older-block-listed"] = true
 		}
@@ -279,10 +308,18 @@ func TestC38PersistedListing(t *testing.T) {
 			t.Fatalf("harness: %v", err)
 		}
 		var sm *StateModule
+		if live {
+			if sm, err = env.liveModule(liveTries, blocks[li].root); err != nil {
+				t.Fatalf("harness: %v", err)
+			}
+			if li == 0 && len(blocks) == 2 {
+				labels["live:older-state-listed-after-block-2-was-derived-from-it"] = true
+			}
+		}
 		matched := false
 		nReq := rapid.IntRange(1, 3).Draw(t, "nreq")
 		for r := 0; r < nReq; r++ {
-			fresh := r == 0 || rapid.Bool().Draw(t, "restart")
+			fresh := !live && (r == 0 || rapid.Bool().Draw(t, "restart"))
 			if fresh {
 				if sm, err = rs.module(); err != nil {
 					t.Fatalf("harness: %v", err)
@@ -312,7 +349,7 @@ func TestC38PersistedListing(t *testing.T) {
 			if pairsFirst {
 				mark += "P"
 			}
-			ctx := fmt.Sprintf("state %s (%s, reloaded from the database) request %d%s prefix %q qty %d", descr, listed.Describe(), r, mark, ph, qty)
+			ctx := fmt.Sprintf("state %s (%s, live=%v) request %d%s prefix %q qty %d", descr, listed.Describe(), live, r, mark, ph, qty)
 			pp := c38Hex(p)
 			pages := 0
 			if pairsFirst {
@@ -335,7 +372,7 @@ func TestC38PersistedListing(t *testing.T) {
 				default:
 					labels["uncached:getKeysPaged-first"] = true
 				}
-			} else {
+			} else if !live {
 				labels["request-on-state-cached-by-an-earlier-listing"] = true
 			}
 			if pages >= 2 {
@@ -384,7 +421,7 @@ func TestC38PersistedRegressions(t *testing.T) {
 		for _, v1 := range []bool{false, true} {
 			for _, pairsFirst := range []bool{false, true} {
 				name := fmt.Sprintf("%s v1=%v pairsFirst=%v", c.name, v1, pairsFirst)
-				ss, err := env.writer()
+				ss, _, err := env.writer()
 				if err != nil {
 					t.Fatal(err)
 				}
